@@ -184,6 +184,7 @@ package memberlist
 //@                  && $bq == snoc(old($bq), Bq(n, suspectMsg, s.Incarnation, n, s.From, 0))
 //@   at call suspicionTimeout: assert susp-from-config [C03,C06]: suspicionMult == m.config.SuspicionMult && interval == m.config.ProbeInterval     // the bound is the configured one, not scaled by the observer's own health
 //@   at call newSuspicion: setbefore $armedAt := state.StateChange
+//@   retains s [C03,C06]     // the timer callback reads s.Node when it fires: callers hand over a claim object of their own and never touch it again
 //@   at call newSuspicion: later fn          // the timer callback (C06 stale-timer guard, C03 failure wiring)
 //@   at call (*sync.RWMutex).Unlock: setbefore $seenHas := has(m.nodeMap, s.Node)
 //@   at call (*sync.RWMutex).Unlock: setbefore $seenState := m.nodeMap[s.Node].State
@@ -920,6 +921,7 @@ package memberlist
 //@   at make header.UserStateLen: assert cap-user [C13,C09]: 0 < n && n <= maxPushStateBytes
 //@   at call io.ReadAtLeast: set $rdN := res0
 //@   ensures-internal user-state-read-in-full [C09,C12]: result3 == nil && header.UserStateLen > 0 ==> $rdN == header.UserStateLen     // a short read is an error, never a zero-padded state
+//@   ensures-internal whole-node-list [C09]: result3 == nil ==> len(result1) == header.Nodes     // a stream cut inside the node list is an error, never a shorter list that is then merged
 //@   ensures-internal whole-user-state [C09,C12]: result3 == nil ==> len(result2) == ite(header.UserStateLen > 0, header.UserStateLen, 0)    // a stream cut inside the user state is an error, never a shorter state
 
 // C12: a reliable user message is handed to the delegate complete, and reading it fails only if decoding the header
